@@ -159,6 +159,11 @@ def run_group(spec, group, ctext_spliced, workdir, timeout, trace=False, tag='')
     if not real:
         r.reason = 'zero obligations generated'; return r
     r.failed = [o for o in real if o['status'] != 'SUCCESS']
+    nobody = [o for o in r.failed if (o['desc'] or '').startswith('no body for callee')]
+    if nobody:
+        # every callee is either emitted from the repository or stubbed by the extractor: a missing body is a defect
+        # of the machinery (runtime header / stub), never a verdict about the code
+        r.failed = []; r.status = 'undecided'; r.reason = 'machinery defect: ' + '; '.join(sorted({o['desc'] for o in nobody}))[:300]; return r
     if vac:
         r.vacuity_ok = all(o['status'] == 'FAILURE' for o in vac)
     if r.failed:
